@@ -9,59 +9,9 @@ use serde_json::{json, Value};
 use std::collections::BTreeSet;
 
 type S = MKTreeStoreInMemory;
-
-fn node_bytes(v: &Value) -> Vec<u8> {
-    v["hash"].as_array().unwrap().iter().map(|x| x.as_u64().unwrap() as u8).collect()
-}
-fn node_json(b: &[u8]) -> Value {
-    json!({ "hash": b })
-}
-
-#[derive(Clone)]
-struct P {
-    root: Vec<u8>,
-    size: u64,
-    leaves: Vec<(u64, Vec<u8>)>,
-    items: Vec<Vec<u8>>,
-}
-impl P {
-    fn from_proof(p: &MKProof) -> P {
-        let v = serde_json::to_value(p).unwrap();
-        P {
-            root: node_bytes(&v["inner_root"]),
-            size: v["inner_proof_size"].as_u64().unwrap(),
-            leaves: v["inner_leaves"].as_array().unwrap().iter().map(|l| (l[0].as_u64().unwrap(), node_bytes(&l[1]))).collect(),
-            items: v["inner_proof_items"].as_array().unwrap().iter().map(node_bytes).collect(),
-        }
-    }
-    fn to_json(&self) -> Value {
-        json!({
-            "inner_root": node_json(&self.root),
-            "inner_leaves": self.leaves.iter().map(|(p, l)| json!([p, node_json(l)])).collect::<Vec<_>>(),
-            "inner_proof_size": self.size,
-            "inner_proof_items": self.items.iter().map(|i| node_json(i)).collect::<Vec<_>>(),
-        })
-    }
-    fn to_proof(&self) -> Option<MKProof> {
-        serde_json::from_value(self.to_json()).ok()
-    }
-    fn line(&self) -> String {
-        format!(
-            "root={} size={} leaves=[{}] items=[{}]",
-            hex(&self.root), self.size,
-            self.leaves.iter().map(|(p, l)| format!("({},{})", p, hex(l))).collect::<Vec<_>>().join(","),
-            self.items.iter().map(|i| hex(i)).collect::<Vec<_>>().join(",")
-        )
-    }
-    fn nested(&self, subs: &str) -> String {
-        format!(
-            "({},{},[{}],[{}],[{}])",
-            hex(&self.root), self.size,
-            self.leaves.iter().map(|(p, l)| format!("({},{})", p, hex(l))).collect::<Vec<_>>().join(","),
-            self.items.iter().map(|i| hex(i)).collect::<Vec<_>>().join(","), subs
-        )
-    }
-}
+#[path = "../common/mkjson.rs"]
+mod mkjson;
+use mkjson::*;
 
 /// S classification of an accepted proof that "contains" a value outside the committed set
 fn classify(claimed: &[u8], committed: &[Vec<u8>]) -> &'static str {
@@ -190,43 +140,6 @@ fn mutate_mk(sink: &mut Sink, rng: &mut Rng, h: &P, committed: &[Vec<u8>], shape
     let mut p = h.clone();
     p.leaves.clear();
     run_mk(sink, "no-leaves", &p, committed);
-}
-
-fn merge(a: &[u8], b: &[u8]) -> Vec<u8> {
-    (MKTreeNode::new(a.to_vec()) + MKTreeNode::new(b.to_vec())).to_vec()
-}
-
-// ------------------------------------------------------------------------------ nested maps
-
-#[derive(Clone)]
-struct MP {
-    master: P,
-    subs: Vec<(BlockRange, Vec<u8>, MP)>, // key, key bytes, sub-proof
-}
-impl MP {
-    fn from_value(v: &Value) -> MP {
-        let master: MKProof = serde_json::from_value(v["master_proof"].clone()).unwrap();
-        let subs = v["sub_proofs"].as_array().unwrap().iter().map(|s| {
-            let k: BlockRange = serde_json::from_value(s[0].clone()).unwrap();
-            let kb: MKTreeNode = k.clone().into();
-            (k, kb.to_vec(), MP::from_value(&s[1]))
-        }).collect();
-        MP { master: P::from_proof(&master), subs }
-    }
-    fn to_json(&self) -> Value {
-        json!({
-            "master_proof": self.master.to_json(),
-            "sub_proofs": self.subs.iter().map(|(k, _, p)| json!([serde_json::to_value(k).unwrap(), p.to_json()])).collect::<Vec<_>>(),
-        })
-    }
-    fn line(&self) -> String {
-        let subs = self.subs.iter().map(|(_, kb, p)| format!("({},{})", hex(kb), p.line())).collect::<Vec<_>>().join(",");
-        self.master.nested(&subs)
-    }
-    fn all_claimed(&self, out: &mut Vec<Vec<u8>>) {
-        for l in &self.master.leaves { out.push(l.1.clone()); }
-        for s in &self.subs { s.2.all_claimed(out); }
-    }
 }
 
 fn run_map(sink: &mut Sink, tag: &str, mp: &MP, q: &[u8], committed: &[Vec<u8>], allowed_extra: &[Vec<u8>]) {
